@@ -27,8 +27,8 @@ type symbol struct {
 	line    int
 	isLocal bool // localparam
 	// port/net redeclaration bookkeeping
-	hasDir  bool
-	hasType bool
+	hasDir       bool
+	hasType      bool
 	genvarActive bool
 }
 
@@ -234,6 +234,12 @@ func (e *elab) instantiate(m *Module, path string, pos []Val, named map[string]V
 	}
 	e.stack = append(e.stack, m.Name)
 	defer func() { e.stack = e.stack[:len(e.stack)-1] }()
+	// a module with parse errors / skipped unsupported items cannot be simulated faithfully
+	for _, dg := range e.d.fatals {
+		if dg.File == m.File && (dg.Line < 0 || (dg.Line >= m.Line && dg.Line <= m.EndLine)) {
+			e.errorf(dg.File, dg.Line, dg.Class, dg.Ident, "module "+m.Name+": "+dg.Msg)
+		}
+	}
 
 	mi := &modInst{mod: m, path: path}
 	prefix := ""
@@ -900,7 +906,8 @@ func (e *elab) resolve(sc *scope, x *Expr, cc *compCtx) *tx {
 		case "<<", ">>", "<<<", ">>>":
 			return &tx{k: tkShift, op: x.Op, w: a.w, sg: a.sg, a: a, b: b, line: x.Line}
 		case "**":
-			return &tx{k: tkPow, op: x.Op, w: a.w, sg: a.sg && b.sg, a: a, b: b, line: x.Line}
+			// the exponent is self-determined and does not take part in the type (like shifts)
+			return &tx{k: tkPow, op: x.Op, w: a.w, sg: a.sg, a: a, b: b, line: x.Line}
 		}
 		e.errorf(file, x.Line, ClassUnsupported, "", "operator "+x.Op+" is not supported")
 		return e.badTx(x.Line)
